@@ -306,80 +306,78 @@ func c13R4(c *Ctx) {
 		return
 	}
 	n := 0
-	for _, f := range p.readerFamily(fn) {
-		if f == fn {
-			continue
+	// role of a value inside the reader or one of its helpers: the window the item was given
+	// (captured before it consumed its fields) or the rest the item's Read handed back; a helper's
+	// parameter has the role of the argument at the helper's call in the reader
+	var roleOfOrg func(o *Org, f *ssa.Function, depth int) string
+	roleOfOrg = func(o *Org, f *ssa.Function, depth int) string {
+		if o == nil || depth > 2 {
+			return ""
 		}
-		// a helper: the stored window is a parameter; at the helper's call in the reader the argument is the item's window
+		if f == fn {
+			if o.Val != nil && stripConv(o.Val) == stripConv(item.Common().Args[0]) {
+				return "window"
+			}
+			if o.Kind == "call" && o.CallI == item.(ssa.Instruction) && o.Res == 0 {
+				return "rest"
+			}
+			return ""
+		}
+		if o.Kind == "param" && o.Fn == f {
+			if cl := p.callIn(fn, f); cl != nil && o.Param < len(cl.Common().Args) {
+				return roleOfOrg(p.Origin(cl.Common().Args[o.Param]), fn, depth+1)
+			}
+		}
+		return ""
+	}
+	for _, f := range p.readerFamily(fn) {
+		f := f
+		fname := FuncName(f)
 		ForEachInstr(f, func(in ssa.Instruction) {
 			mu, ok := in.(*ssa.MapUpdate)
 			if !ok {
 				return
 			}
 			n++
-			par, isPar := stripConv(mu.Value).(*ssa.Parameter)
-			okWin := false
-			if isPar {
-				for i, q := range f.Params {
-					if q == par {
-						if cl := p.callIn(fn, f); cl != nil && i < len(cl.Common().Args) {
-							okWin = stripConv(cl.Common().Args[i]) == stripConv(item.Common().Args[0])
+			win := stripConv(mu.Value)
+			// the stored value is the part of the captured window that the item consumed:
+			// window[:len(window)-len(rest)], rest being what the item's Read handed back
+			extentOK := false
+			if sl, isSl := win.(*ssa.Slice); isSl && sl.Low == nil && sl.High != nil && roleOfOrg(p.Origin(sl.X), f, 0) == "window" {
+				ho := p.Origin(sl.High)
+				if ho.Kind == "phi" {
+					// clamped form: φ{len(window)-len(rest) | 1}
+					var diff *Org
+					okAlts := true
+					for _, a := range ho.Alts {
+						switch {
+						case a.IsConstInt(1):
+						case a.Kind == "binop" && a.Op == token.SUB:
+							diff = a
+						default:
+							okAlts = false
 						}
 					}
-				}
-			}
-			c.Check(okWin, FuncName(f), p.InstrPos(mu), "window-before-read", "the stored window is the one the item was given (captured before it consumed its fields)",
-				"the member is stored with "+p.Origin(mu.Value).String()+", which is not the window the item started reading from")
-			ko := p.Origin(mu.Key)
-			okKey := ko.Kind == "field" && ko.Base != nil && ko.Base.Kind == "index" && ko.Base.Y.IsConstInt(0) && ko.Base.Base != nil && ko.Base.Base.Val != nil && isPar && stripConv(ko.Base.Base.Val) == ssa.Value(par)
-			c.Check(okKey, FuncName(f), p.InstrPos(mu), "key-is-first-tag", "stored under the tag of the window's first field", "the member is stored under "+ko.String()+", not under the tag of the first field of its window")
-		})
-	}
-	ForEachInstr(fn, func(in ssa.Instruction) {
-		mu, ok := in.(*ssa.MapUpdate)
-		if !ok {
-			return
-		}
-		n++
-		win := stripConv(mu.Value)
-		// the stored value is the part of the captured window that the item consumed:
-		// window[:len(window)-len(rest)], rest being what the item's Read handed back
-		extentOK := false
-		if sl, isSl := win.(*ssa.Slice); isSl && sl.Low == nil && sl.High != nil && stripConv(sl.X) == stripConv(item.Common().Args[0]) {
-			ho := p.Origin(sl.High)
-			if ho.Kind == "phi" {
-				// clamped form: φ{len(window)-len(rest) | 1}
-				var diff *Org
-				okAlts := true
-				for _, a := range ho.Alts {
-					switch {
-					case a.IsConstInt(1):
-					case a.Kind == "binop" && a.Op == token.SUB:
-						diff = a
-					default:
-						okAlts = false
+					if okAlts && diff != nil {
+						ho = diff
 					}
 				}
-				if okAlts && diff != nil {
-					ho = diff
+				if ho.Kind == "binop" && ho.Op == token.SUB && ho.X.IsCallTo("len") && ho.Y.IsCallTo("len") && len(ho.X.Args) == 1 && len(ho.Y.Args) == 1 {
+					if roleOfOrg(ho.X.Args[0], f, 0) == "window" && roleOfOrg(ho.Y.Args[0], f, 0) == "rest" {
+						extentOK = true
+					}
 				}
+				win = stripConv(sl.X)
 			}
-			if ho.Kind == "binop" && ho.Op == token.SUB && ho.X.IsCallTo("len") && ho.Y.IsCallTo("len") && len(ho.X.Args) == 1 && len(ho.Y.Args) == 1 {
-				xa, ya := ho.X.Args[0], ho.Y.Args[0]
-				if xa.Val != nil && stripConv(xa.Val) == stripConv(item.Common().Args[0]) && ya.Kind == "call" && ya.CallI == item.(ssa.Instruction) && ya.Res == 0 {
-					extentOK = true
-				}
-			}
-			win = stripConv(sl.X)
-		}
-		c.Check(extentOK, name, p.InstrPos(mu), "stored-extent-is-what-the-item-consumed", "the member is stored as window[:len(window)-len(rest)]",
-			"the member is stored with "+p.Origin(mu.Value).String()+", not cut to the fields the item consumed: every entry keeps everything that follows it in the message, so a group that was read and is written again (forwarded into another message) repeats the tail after each member")
-		c.Check(win == stripConv(item.Common().Args[0]), name, p.InstrPos(mu), "window-before-read", "the stored window is the one the item was given (captured before it consumed its fields)",
-			"the member is stored with "+p.Origin(mu.Value).String()+", not with the window the item started reading from: a nested group or the remaining entries are cut off or shifted")
-		ko := p.Origin(mu.Key)
-		okKey := ko.Kind == "field" && ko.Base != nil && ko.Base.Kind == "index" && ko.Base.Y.IsConstInt(0) && ko.Base.Base != nil && ko.Base.Base.Val != nil && stripConv(ko.Base.Base.Val) == win
-		c.Check(okKey, name, p.InstrPos(mu), "key-is-first-tag", "stored under the tag of the window's first field", "the member is stored under "+ko.String()+", not under the tag of the first field of its window")
-	})
+			c.Check(extentOK, fname, p.InstrPos(mu), "stored-extent-is-what-the-item-consumed", "the member is stored as window[:len(window)-len(rest)]",
+				"the member is stored with "+p.Origin(mu.Value).String()+", not cut to the fields the item consumed: every entry keeps everything that follows it in the message, so a group that was read and is written again (forwarded into another message) repeats the tail after each member")
+			c.Check(roleOfOrg(p.Origin(win), f, 0) == "window", fname, p.InstrPos(mu), "window-before-read", "the stored window is the one the item was given (captured before it consumed its fields)",
+				"the member is stored with "+p.Origin(mu.Value).String()+", not with the window the item started reading from: a nested group or the remaining entries are cut off or shifted")
+			ko := p.Origin(mu.Key)
+			okKey := ko.Kind == "field" && ko.Base != nil && ko.Base.Kind == "index" && ko.Base.Y.IsConstInt(0) && ko.Base.Base != nil && ko.Base.Base.Val != nil && stripConv(ko.Base.Base.Val) == win
+			c.Check(okKey, fname, p.InstrPos(mu), "key-is-first-tag", "stored under the tag of the window's first field", "the member is stored under "+ko.String()+", not under the tag of the first field of its window")
+		})
+	}
 	if n == 0 {
 		c.Violation(name, p.Pos(fn.Pos()), "no-member-store", "the group reader stores no member")
 	}
@@ -761,6 +759,42 @@ func c13R7(c *Ctx) {
 		c.Check(ok, name, p.InstrPos(pred.Instrs[len(pred.Instrs)-1]), "path-and-definitions-in-step", "tag path and member definitions change together",
 			"on this way round the loop the member definitions become "+p.Origin(fieldsPhi.Edges[i]).String()+" while the tag path becomes "+p.Origin(tagsPhi.Edges[i]).String()+": the definitions are not those of the path, so nested groups are looked up under the wrong parent (members of a nested group are filed as body fields, or a following field is taken for a member)")
 	}
+	// (c) a member is tested for being a nested group on the path its membership was established
+	// for: where the NumInGroup predicate runs under a positive membership test against definitions
+	// F, the path it extends by the member's tag is the path F belongs to
+	for _, cl := range Calls(gp) {
+		cal := cl.Common().StaticCallee()
+		if cal == nil || !p.InModule(cal) || cal == member || cal == defs || cal.Signature.Params().Len() != 3 || len(cl.Common().Args) != 3 {
+			continue
+		}
+		if b, ok := cal.Signature.Results().At(0).Type().Underlying().(*types.Basic); !ok || b.Kind() != types.Bool || cal.Signature.Results().Len() != 1 {
+			continue
+		}
+		if !inAnyLoop(gp, cl.Block()) {
+			continue
+		}
+		d := p.ReachCond(cl.Block())
+		var mcall *ssa.Call
+		for _, a := range allAtoms(d) {
+			if a.Rel == "" && a.Val && a.B.Kind == "call" && a.B.Callee == member && d.Implies(func(x *Atom) bool { return x.ID() == a.ID() }) {
+				if mc, ok := a.B.CallI.(*ssa.Call); ok {
+					mcall = mc
+				}
+			}
+		}
+		if mcall == nil {
+			continue
+		}
+		ai := asAppend(cl.Common().Args[1])
+		if ai == nil {
+			continue
+		}
+		n++
+		visited = map[[2]ssa.Value]bool{}
+		ok := inStep(mcall.Call.Args[1], ai.Base)
+		c.Check(ok, name, p.InstrPos(cl.(ssa.Instruction)), "nested-test-on-member-path", "a member is tested for being a nested group on the path of the group it is a member of",
+			"the member is tested for being a nested group on the path "+p.Origin(ai.Base).String()+", but its membership was established against "+p.Origin(mcall.Call.Args[1]).String()+", the definitions of another path: a nested group that directly follows a sibling nested group is tested under the group that just ended, filed as a plain member, and its entries spill into the body")
+	}
 }
 
 // readerFamily: the group reader and the unexported methods of the same receiver type it calls
@@ -772,7 +806,11 @@ func (p *Prog) readerFamily(fn *ssa.Function) []*ssa.Function {
 		if cal == nil || cal == fn || !p.InModule(cal) || cal.Signature.Recv() == nil || fn.Signature.Recv() == nil {
 			continue
 		}
-		if typeName(cal.Signature.Recv().Type()) != typeName(fn.Signature.Recv().Type()) || cal.Object() == nil || cal.Object().Exported() {
+		// helper methods of the reader's own type, or of the entry type it fills
+		if rt := typeName(cal.Signature.Recv().Type()); rt != typeName(fn.Signature.Recv().Type()) && rt != "Group" && rt != "FieldMap" {
+			continue
+		}
+		if cal.Object() == nil || cal.Object().Exported() {
 			continue
 		}
 		has := false
@@ -803,4 +841,28 @@ func (p *Prog) callIn(fn, callee *ssa.Function) ssa.CallInstruction {
 		}
 	}
 	return nil
+}
+
+// allAtoms: every atom occurrence of d (Atoms() merges atoms with the same description, which
+// hides the second of two evaluations of one predicate).
+func allAtoms(d DNF) []*Atom {
+	var out []*Atom
+	seen := map[string]bool{}
+	for _, e := range d.Extra {
+		for _, a := range allAtoms(e) {
+			if !seen[a.ID()] {
+				seen[a.ID()] = true
+				out = append(out, a)
+			}
+		}
+	}
+	for _, cj := range d.Cs {
+		for _, a := range cj {
+			if !seen[a.ID()] {
+				seen[a.ID()] = true
+				out = append(out, a)
+			}
+		}
+	}
+	return out
 }
